@@ -40,8 +40,8 @@ type c05nErrReader struct{}
 func (c05nErrReader) Read([]byte) (int, error) { return 0, errors.New("c05: read failed") }
 
 type c05nEtcd struct {
-	Hosts []string `json:"hosts"`
-	Key   string   `json:"key"`
+	Hosts []string `json:"hosts" key:"hosts"`
+	Key   string   `json:"key" key:"key"`
 }
 
 type c05nRow struct {
@@ -862,6 +862,87 @@ func TestVerifC05Native(t *testing.T) {
 		}
 		return ""
 	})
+
+	// explicit null is a value at its level (optional -> zero, required -> error, exactly as without inherit):
+	// it is not looked through to the ancestors. Crossed with: required / optional inherit member, scalar and
+	// object members, by-value and by-pointer nesting, one and two levels, ancestor holding the key or not.
+	type nullLeaf struct {
+		Req string    `json:"req,inherit" key:"req,inherit"`
+		Opt string    `json:"opt,optional,inherit" key:"opt,optional,inherit"`
+		Num *int      `json:"num,optional,inherit" key:"num,optional,inherit"`
+		Obj *c05nEtcd `json:"obj,optional,inherit" key:"obj,optional,inherit"`
+	}
+	type nullMid struct {
+		Leaf  nullLeaf  `json:"leaf" key:"leaf"`
+		LeafP *nullLeaf `json:"leafp,optional" key:"leafp,optional"`
+	}
+	type nullRoot struct {
+		Req  string    `json:"req,optional" key:"req,optional"`
+		Opt  string    `json:"opt,optional" key:"opt,optional"`
+		Num  *int      `json:"num,optional" key:"num,optional"`
+		Obj  *c05nEtcd `json:"obj,optional" key:"obj,optional"`
+		Leaf nullLeaf  `json:"leaf" key:"leaf"`
+		Mid  *nullMid  `json:"mid,optional" key:"mid,optional"`
+	}
+	anc := `"req":"R0","opt":"O0","num":7,"obj":{"hosts":["a"],"key":"k0"},`
+	nullDocs := []struct {
+		name, doc, expect string
+		check             func(r *nullRoot) string
+	}{
+		{"optional inherit members null, ancestors hold the keys", `{` + anc + `"leaf":{"req":"r1","opt":null,"num":null,"obj":null}}`, "ok", func(r *nullRoot) string {
+			if r.Leaf.Req != "r1" || r.Leaf.Opt != "" || r.Leaf.Num != nil || r.Leaf.Obj != nil {
+				return fmt.Sprintf("leaf=%+v (null members must stay zero, the ancestor's values are O0 / 7 / {a k0})", r.Leaf)
+			}
+			return ""
+		}},
+		{"required inherit member null, ancestor holds the key", `{` + anc + `"leaf":{"req":null}}`, "error", nil},
+		{"required inherit member null, no ancestor holds the key", `{"leaf":{"req":null}}`, "error", nil},
+		{"required inherit member absent, ancestor holds the key", `{` + anc + `"leaf":{}}`, "ok", func(r *nullRoot) string {
+			if r.Leaf.Req != "R0" || r.Leaf.Opt != "O0" || r.Leaf.Num == nil || *r.Leaf.Num != 7 || r.Leaf.Obj == nil || r.Leaf.Obj.Key != "k0" {
+				return fmt.Sprintf("leaf=%+v", r.Leaf)
+			}
+			return ""
+		}},
+		{"two levels down, by value and by pointer: optional nulls, ancestors two levels up", `{` + anc + `"leaf":{},"mid":{"leaf":{"opt":null,"num":null,"obj":null},"leafp":{"req":"r2","opt":null}}}`, "ok", func(r *nullRoot) string {
+			if r.Mid == nil || r.Mid.LeafP == nil {
+				return "nil pointer"
+			}
+			l, lp := r.Mid.Leaf, r.Mid.LeafP
+			if l.Req != "R0" || l.Opt != "" || l.Num != nil || l.Obj != nil || lp.Req != "r2" || lp.Opt != "" || lp.Num == nil || *lp.Num != 7 {
+				return fmt.Sprintf("mid.leaf=%+v mid.leafp=%+v", l, *lp)
+			}
+			return ""
+		}},
+		{"two levels down by pointer: required null, ancestor two levels up holds the key", `{` + anc + `"leaf":{},"mid":{"leaf":{},"leafp":{"req":null}}}`, "error", nil},
+		{"null at the middle level shadows the top level for the member below", `{` + anc + `"leaf":{},"mid":{"opt":null,"leaf":{}}}`, "free", func(r *nullRoot) string {
+			if r.Mid == nil {
+				return "nil pointer"
+			}
+			if o := r.Mid.Leaf.Opt; o != "" && o != "O0" {
+				return "mid.leaf.opt=" + o
+			}
+			return ""
+		}},
+		{"null at the ancestor, member absent below: optional stays zero", `{"req":"R0","opt":null,"num":null,"obj":null,"leaf":{}}`, "ok", func(r *nullRoot) string {
+			if r.Leaf.Req != "R0" || r.Leaf.Opt != "" || r.Leaf.Num != nil || r.Leaf.Obj != nil {
+				return fmt.Sprintf("leaf=%+v", r.Leaf)
+			}
+			return ""
+		}},
+		{"null at the ancestor, required member absent below", `{"req":null,"leaf":{}}`, "error", nil},
+	}
+	for _, nd := range nullDocs {
+		for _, epn := range []string{"UnmarshalJsonBytes", "UnmarshalYamlBytes", "UnmarshalJsonMap", "UnmarshalKey", "UnmarshalJsonReader"} {
+			nd, epn := nd, epn
+			ep := eps[epn]
+			var nr nullRoot
+			var chk func() string
+			if nd.check != nil {
+				chk = func() string { return nd.check(&nr) }
+			}
+			add("inherit-null", nd.name+" via "+epn, nd.expect, func() error { nr = nullRoot{}; return ep(nd.doc, &nr) }, chk)
+		}
+	}
 
 	type inhReq struct {
 		A struct {
